@@ -51,7 +51,7 @@ def run(tier, pid=PID):
     # 2. real runs, trace validation
     cases = SC.all_cases(shapes, None if thorough else 14, rnd)
     nsched = 14 if thorough else 4
-    runs = SC.run_real(cases, nsched, chk.scratch, chk.seed)
+    runs = SC.run_real(cases, nsched, chk.scratch, chk.seed, per_shape_budget=120 if thorough else 40)
     for h in runs:
         chk.evaluated((h.shape_name, tuple(h.oa), h.sched))
         if h.threads:
